@@ -120,6 +120,12 @@ theorem emit_inv {s : WState} (hi : Inv s) (bs : Bytes)
     obtain ⟨ha, hb⟩ := hi.patch st p h1 h2
     exact ⟨by simp [emit]; omega, hb⟩
 
+/-- the invariant does not look at the ghost fields -/
+theorem Inv.congr {s s' : WState} (hi : Inv s) (h1 : s'.out = s.out) (h2 : s'.pos = s.pos)
+    (h3 : s'.xref = s.xref) (h4 : s'.nextRef = s.nextRef) (h5 : s'.stm = s.stm) : Inv s' :=
+  ⟨by rw [h1, h2]; exact hi.pos_eq, by rw [h1, h2, h3, h5]; exact hi.entries,
+   by rw [h1, h3, h5]; exact hi.patch, by rw [h3, h4]; exact hi.below, by rw [h4]; exact hi.npos⟩
+
 theorem alloc_inv {s s' : WState} {r : Nat} (hi : Inv s) (h : alloc s = some (s', r)) :
     Inv s' ∧ s'.out = s.out ∧ s'.pos = s.pos ∧ s'.stm = s.stm ∧ s'.xref = s.xref ∧ s'.after = s.after ∧
       s'.opts = s.opts ∧ r = s.nextRef ∧ s'.nextRef = s.nextRef + 1 := by
@@ -317,7 +323,8 @@ theorem streamWrite_inv {s s' : WState} {p : Bytes} (hi : Inv s) (h : streamWrit
     · rename_i hst
       simp only [Except.ok.injEq] at h
       subst h
-      exact ⟨emit_inv hi p (fun st0 h0 => by rw [hs] at h0; cases h0; exact hst), rfl, rfl,
+      exact ⟨emit_inv (hi.congr (s' := { s with sdata := s.sdata ++ p }) rfl rfl rfl rfl rfl) p
+          (fun st0 h0 => by simp only [hs] at h0; cases h0; exact hst), rfl, rfl,
         ⟨st, by simp [emit, hs]⟩, fun _ => rfl⟩
     · rename_i hst
       have hst' : st.started = false := by simpa using hst
@@ -340,7 +347,8 @@ theorem streamWrite_inv {s s' : WState} {p : Bytes} (hi : Inv s) (h : streamWrit
           simp only [Except.ok.injEq] at h
           subst h
           obtain ⟨hi1, hstarted, haf, hop, hx, _⟩ := startWriting_inv hi hs hst' hsw
-          refine ⟨emit_inv hi1 p (fun st0 h0 => by simp at h0; subst h0; exact hstarted),
+          refine ⟨emit_inv (hi1.congr (s' := { s1 with stm := some st1, sdata := s.sdata ++ p }) rfl rfl rfl rfl rfl) p
+              (fun st0 h0 => by simp at h0; subst h0; exact hstarted),
             by simp [emit, haf], by simp [emit, hop], ⟨st1, by simp [emit]⟩, fun n => by simp [emit, hx]⟩
 
 /-- closing the bookkeeping of a started stream -/
@@ -447,9 +455,9 @@ theorem streamCloseWith_inv {putS} (hput : PutSOk putS) {s s' : WState} (hi : In
         have hi2 : Inv (emit { s1 with stm := some stx } (kEndstream ++ prettyNL s.opts)) :=
           emit_inv hi1 _ (fun st0 h0 => by simp at h0; subst h0; exact hstx)
         have hi3 := dropStm_inv hi2 (fun st0 h0 => by simp [emit] at h0; subst h0; exact hstx)
-        have hi4 : Inv ({ emit s1 (kEndstream ++ prettyNL s.opts) with stm := none, after := [] } : WState) :=
-          ⟨hi3.pos_eq, hi3.entries, fun st2 p2 h1 => by simp at h1, hi3.below, hi3.npos⟩
-        obtain ⟨a, b, c⟩ := replayWith_inv hput _ hi4 rfl h
+        have hi4 : ∀ sd, Inv ({ emit s1 (kEndstream ++ prettyNL s.opts) with stm := none, after := [], sdoc := sd } : WState) :=
+          fun sd => ⟨hi3.pos_eq, hi3.entries, fun st2 p2 h1 => by simp at h1, hi3.below, hi3.npos⟩
+        obtain ⟨a, b, c⟩ := replayWith_inv hput _ (hi4 _) rfl h
         exact ⟨a, b, by rw [c]; simp [emit, hop1]⟩
 
 theorem putStreamWith_inv {close : WState → Except Err WState}
